@@ -9,27 +9,27 @@ Lemma filter_negb_length {A} (f : A -> bool) l :
   length (filter f l) + length (filter (fun x => negb (f x)) l) = length l.
 Proof. induction l as [|a l IH]; cbn; auto. destruct (f a); cbn; lia. Qed.
 
-Lemma len_owned cf s : Inv cf s -> res_len s = length (owned s).
+Lemma len_owned cf s {lk} : InvL cf s lk -> res_len s = length (owned s lk).
 Proof.
   intro I. unfold res_len, ctl_len.
-  apply (count_by_indices _ _ dC); [apply (i_part _ _ I)|].
-  intro i. rewrite (i_nonfree _ _ I), (i_clen _ _ I), negb_true_iff. tauto.
+  apply (count_by_indices _ _ dC); [apply (i_part _ _ _ I)|].
+  intro i. rewrite (i_nonfree _ _ _ I), (i_clen _ _ _ I), negb_true_iff. tauto.
 Qed.
 
-Lemma free_list_length cf s fl :
-  Inv cf s -> NoDup fl -> (forall i, In i fl <-> i < cap cf /\ cfree (cs s i) = true) ->
+Lemma free_list_length cf s fl {lk} :
+  InvL cf s lk -> NoDup fl -> (forall i, In i fl <-> i < cap cf /\ cfree (cs s i) = true) ->
   length fl + res_len s = cap cf.
 Proof.
-  intros I ND H. rewrite <- (i_clen _ _ I).
+  intros I ND H. rewrite <- (i_clen _ _ _ I).
   rewrite <- (filter_negb_length cfree (cslots (st_ctl s))). unfold res_len, ctl_len. f_equal.
   symmetry. apply (count_by_indices _ _ dC); auto.
-  intro i. rewrite H, (i_clen _ _ I). tauto.
+  intro i. rewrite H, (i_clen _ _ _ I). tauto.
 Qed.
 
-Lemma capacity_exact_inv cf s :
-  Inv cf s ->
+Lemma capacity_exact_inv cf s {lk} :
+  InvL cf s lk ->
   res_capacity s = cap cf /\
-  res_len s = length (aorder (st_ar s)) + length (st_newq s) + length (gres (st_g s)) /\
+  res_len s = length (aorder (st_ar s)) + length (st_newq s) + length (gres (st_g s)) + length lk /\
   res_len s + st_removed s = st_created s /\
   res_len s <= cap cf /\
   (res_len s < cap cf ->
@@ -39,14 +39,14 @@ Lemma capacity_exact_inv cf s :
 Proof.
   intro I. pose proof (len_owned _ _ I) as Hlen.
   pose proof (owned_bound _ _ I) as Hob.
-  split; [apply (i_clen _ _ I)|].
+  split; [apply (i_clen _ _ _ I)|].
   split; [rewrite Hlen; unfold owned, nq_idx; rewrite !app_length, map_length; lia|].
-  split; [rewrite Hlen, (i_counts _ _ I); lia|].
+  split; [rewrite Hlen, (i_counts _ _ _ I); lia|].
   split; [lia|].
-  unfold res_try_reserve, ctl_capacity. rewrite (i_clen _ _ I).
+  unfold res_try_reserve, ctl_capacity. rewrite (i_clen _ _ _ I).
   destruct (Nat.eqb_spec (cap cf) 0) as [Ez|Ez].
   { split; [intro; lia|auto]. }
-  destruct (i_free _ _ I ltac:(lia)) as (fl & Hch & Hnd & Hfl).
+  destruct (i_free _ _ _ I ltac:(lia)) as (fl & Hch & Hnd & Hfl).
   pose proof (free_list_length _ _ _ I Hnd Hfl) as Hfll.
   split.
   - intro Hlt. destruct fl as [|h r]; cbn [length] in Hfll; [lia|].
@@ -63,25 +63,25 @@ Definition live (s : state) (k : key) (p : nat) : Prop :=
 (** the slot of [k] has been freed since [k] was handed out *)
 Definition gone (s : state) (k : key) : Prop := kgen k < cgen (cs s (kidx k)).
 
-Lemma resolve_live cf s k p : Inv cf s -> (resolve s k = Ok (Some p) <-> kidx k < cap cf /\ live s k p).
+Lemma resolve_live cf s k p {lk} : InvL cf s lk -> (resolve s k = Ok (Some p) <-> kidx k < cap cf /\ live s k p).
 Proof.
-  intro I. unfold resolve, arena_get, live, present. pose proof (i_alen _ _ I) as Hal.
+  intro I. unfold resolve, arena_get, live, present. pose proof (i_alen _ _ _ I) as Hal.
   destruct (nth_error (aslots (st_ar s)) (kidx k)) as [sl|] eqn:En.
   - apply (nth_error_nth_d _ _ _ dA) in En as [Hi <-].
     destruct (Nat.eqb_spec (agen (asl s (kidx k))) (kgen k)) as [E|E].
     + split.
       * intro H. inversion H as [H1]. split; [lia|]. repeat split; auto.
-        apply (i_occ _ _ I); [lia|congruence].
+        apply (i_occ _ _ _ I); [lia|congruence].
       * intros (_ & _ & ->). reflexivity.
     + split; [discriminate|]. intros (_ & (_ & E') & _). congruence.
   - apply nth_error_None in En. split; [discriminate|]. intros [? _]. lia.
 Qed.
 
-Lemma gone_resolve cf s k : Inv cf s -> kidx k < cap cf -> gone s k -> resolve s k = Ok None.
+Lemma gone_resolve cf s k {lk} : InvL cf s lk -> kidx k < cap cf -> gone s k -> resolve s k = Ok None.
 Proof.
   intros I Hi Hg. unfold resolve, arena_get, gone in *.
-  rewrite (nth_error_lt _ _ dA) by (rewrite (i_alen _ _ I); auto).
-  rewrite (i_gen _ _ I) by auto.
+  rewrite (nth_error_lt _ _ dA) by (rewrite (i_alen _ _ _ I); auto).
+  rewrite (i_gen _ _ _ I) by auto.
   destruct (Nat.eqb_spec (cgen (cs s (kidx k))) (kgen k)); [lia|reflexivity].
 Qed.
 
@@ -101,8 +101,8 @@ Lemma live_frame s s' k p :
   st_ar s' = st_ar s -> live s k p -> live s' k p.
 Proof. unfold live. now intros ->. Qed.
 
-Lemma track_step cf n k p l s s' :
-  Inv cf s -> QInv cf s -> track cf n k p s -> step cf l s = Ok s' -> track cf n k p s'.
+Lemma track_step cf n k p l s s' {lk} :
+  InvL cf s lk -> QInv cf s -> track cf n k p s -> step cf l s = Ok s' -> track cf n k p s'.
 Proof.
   intros I Q (Hm & Hi & T) H.
   pose proof (step_mono _ _ _ _ I H) as Hmono.
@@ -146,7 +146,7 @@ Proof.
       try (right; rewrite ?Ea; exact T).
     right. cbn. destruct T as [T|[T|T]]; [tauto|tauto|]. right. right.
     destruct T as (T1 & T2 & _). split; auto. split; auto. right. eexists. split; [reflexivity|].
-    destruct T2 as [T2 _]. pose proof (i_keys _ _ I) as Hk.
+    destruct T2 as [T2 _]. pose proof (i_keys _ _ _ I) as Hk.
     destruct (selfref cf); [now apply Hk|now apply arena_keys_in].
   - (* A_remove *)
     destruct (st_inflight s) as [pf|] eqn:Ef.
@@ -169,7 +169,7 @@ Proof.
         replace (S (cap cf) <=? length (st_unused s)) with false; [apply andb_false_r|].
         symmetry. apply Nat.leb_gt. lia. }
       rewrite Hfull.
-      pose proof (i_cur _ _ I _ Ea) as [NDcur _]. cbn [map] in NDcur.
+      pose proof (i_cur _ _ _ I _ Ea) as [NDcur _]. cbn [map] in NDcur.
       inversion NDcur as [|? ? Hk0rest _]; subst.
       assert (Hcase : forall (T2 : live s k p),
                  (k0 = k /\ p0 = p) \/ kidx k0 <> kidx k).
@@ -184,8 +184,8 @@ Proof.
           rewrite in_remove_iff, nth_upd_neq by auto. fold dA. repeat split; auto. }
         assert (Hgone : forall (T2 : live s k p), k0 = k -> gone (removed_state cf s k0 p0 rest) k).
         { intros [[Ho Hg] Hd] ->. unfold gone. cbn.
-          rewrite nth_upd_eq by (rewrite (i_clen _ _ I); auto). cbn.
-          rewrite <- (i_gen _ _ I) by auto. lia. }
+          rewrite nth_upd_eq by (rewrite (i_clen _ _ _ I); auto). cbn.
+          rewrite <- (i_gen _ _ _ I) by auto. lia. }
         destruct T as [T|[T|T]].
         -- right. left. exact T.
         -- destruct T as (T1 & T2). destruct (Hcase T2) as [[-> ->]|Hne]; [left; auto|].
@@ -226,7 +226,7 @@ Proof.
       destruct T as [T|[T|T]].
       * destruct T as (T1 & [T2|T2]).
         -- inversion T2; subst. right. left. split; auto.
-           unfold live, present. cbn. rewrite nth_upd_eq by (rewrite (i_alen _ _ I); auto).
+           unfold live, present. cbn. rewrite nth_upd_eq by (rewrite (i_alen _ _ _ I); auto).
            cbn. repeat split; auto.
         -- left. split; auto.
       * right. left. destruct T as (T1 & T2). split; auto.
@@ -240,8 +240,8 @@ Proof.
     destruct T as [T|[T|T]]; [tauto| |]; [right; left|right; right]; intuition eauto using live_frame.
 Qed.
 
-Lemma track_run cf n k p sched s s' :
-  Inv cf s -> QInv cf s -> track cf n k p s ->
+Lemma track_run cf n k p sched s s' {lk} :
+  InvL cf s lk -> QInv cf s -> track cf n k p s ->
   run cf sched s = Ok s' -> track cf n k p s'.
 Proof.
   intros I Q T H. eapply (run_preserves_q cf (track cf n k p)); eauto.
@@ -259,7 +259,7 @@ Lemma prompt_removal_proof :
     resolve s2 k = Ok None /\ gone s2 k.
 Proof.
   intros cf sched1 s1 k p sched2 s2 H1 Ha Hr Hm H2 Hcb.
-  destruct (reach _ _ _ H1) as [I1 Q1].
+  destruct (reach _ _ _ H1) as [I1 Q1]. unfold Inv in *.
   pose proof (run_inv _ _ _ _ I1 H2) as I2.
   apply (resolve_live _ _ _ _ I1) in Hr as [Hi Hl].
   assert (T : track cf (st_callbacks s1) k p s1).
@@ -278,10 +278,10 @@ Lemma prompt_removal_queued_proof :
     (st_callbacks s1 + 2 <= st_callbacks s2 -> resolve s2 k = Ok None /\ gone s2 k).
 Proof.
   intros cf sched1 s1 k p sched2 s2 H1 Hq Hm H2.
-  destruct (reach _ _ _ H1) as [I1 Q1].
+  destruct (reach _ _ _ H1) as [I1 Q1]. unfold Inv in *.
   pose proof (run_inv _ _ _ _ I1 H2) as I2.
   assert (Hi : kidx k < cap cf).
-  { apply (i_nonfree _ _ I1). unfold owned. rewrite !in_app_iff. right. left.
+  { apply (i_nonfree _ _ _ I1). unfold owned. rewrite !in_app_iff. right. left.
     unfold nq_idx. apply in_map_iff. now exists (k, p). }
   assert (T : track cf (st_callbacks s1 + 1) k p s1).
   { split; [now apply is_marked_In|]. split; auto. }
@@ -299,8 +299,8 @@ Lemma is_full_guard_never_fires_proof :
     run cf sched (init cf) = Ok s -> st_a s = ARemoving (k :: rest) ->
     ring_is_full (unused_cap cf) (st_unused s) = false.
 Proof.
-  intros cf sched s k rest H Ea. destruct (reach _ _ _ H) as [I Q].
-  pose proof (i_cur _ _ I _ Ea) as [_ Hcur]. destruct (Hcur k (or_introl eq_refl)) as [Hocc _].
+  intros cf sched s k rest H Ea. destruct (reach _ _ _ H) as [I Q]. unfold Inv in *.
+  pose proof (i_cur _ _ _ I _ Ea) as [_ Hcur]. destruct (Hcur k (or_introl eq_refl)) as [Hocc _].
   unfold QInv in Q.
   assert (1 <= length (aorder (st_ar s))) by (destruct (aorder (st_ar s)); [destruct Hocc|cbn; lia]).
   unfold ring_is_full, unused_cap. apply Nat.leb_gt. lia.
@@ -308,8 +308,8 @@ Qed.
 
 (** ** where payloads are destroyed *)
 
-Lemma audio_step_frame cf l s s' :
-  Inv cf s -> thread_of l = Audio -> step cf l s = Ok s' ->
+Lemma audio_step_frame cf l s s' {lk} :
+  InvL cf s lk -> thread_of l = Audio -> step cf l s = Ok s' ->
   st_destroyed s' = st_destroyed s /\ st_next s' = st_next s.
 Proof.
   intros I Ht H. destruct l; cbn in Ht; try discriminate; cbn [step] in H.
@@ -343,13 +343,13 @@ Lemma destroyed_on_caller_proof :
                   st_destroyed s' = st_destroyed s /\ st_next s' = st_next s).
 Proof.
   intros cf sched s H.
-  destruct (reach _ _ _ H) as [I _].
-  split; [apply (i_destroyed _ _ I)|]. split; [|split; [apply (i_cons _ _ I)|]].
-  - pose proof (i_cons _ _ I) as P.
+  destruct (reach _ _ _ H) as [I _]. unfold Inv in *.
+  split; [apply (i_destroyed _ _ _ I)|]. split; [|split; [apply (i_cons _ _ _ I)|]].
+  - pose proof (i_cons _ _ _ I) as P.
     pose proof (Permutation_NoDup P (seq_NoDup _ _)) as ND.
     apply NoDup_app_iff in ND as (_ & ND & _). apply NoDup_app_iff in ND as (_ & ND & _).
     now apply NoDup_app_iff in ND as (_ & ND & _).
-  - intros l s'. now apply audio_step_frame.
+  - intros l s'. exact (audio_step_frame cf l s s' I).
 Qed.
 
 (** ** no stale ids *)
@@ -365,11 +365,11 @@ Lemma no_stale_ids_proof :
     (forall k c', res_try_reserve (st_ctl s) = Ok (Reserved k c') -> forall p, ~ In (p, k) (st_log s)).
 Proof.
   intros cf sched s H.
-  destruct (reach _ _ _ H) as [I _].
+  destruct (reach _ _ _ H) as [I _]. unfold Inv in *.
   repeat split.
   - intros k p Hr. apply (resolve_live _ _ _ _ I) in Hr as (Hi & [_ Hg] & Hd).
-    pose proof (i_ar_log _ _ I _ _ Hi Hd) as Hin. rewrite <- Hg in Hin. now destruct k.
-  - intros p p' k H1 H2. pose proof (i_log_keys _ _ I) as ND.
+    pose proof (i_ar_log _ _ _ I _ _ Hi Hd) as Hin. rewrite <- Hg in Hin. now destruct k.
+  - intros p p' k H1 H2. pose proof (i_log_keys _ _ _ I) as ND.
     clear - H1 H2 ND. induction (st_log s) as [|[q k0] l IH]; [destruct H1|].
     cbn in ND. inversion ND as [|? ? Hn ND']; subst.
     destruct H1 as [E1|H1], H2 as [E2|H2].
@@ -380,30 +380,30 @@ Proof.
   - pose proof (run_inv _ _ _ _ I H2) as I2.
     eapply gone_resolve; eauto. eapply gone_mono; eauto. eapply run_mono; eauto.
   - eapply gone_mono; eauto. eapply run_mono; eauto.
-  - intros k p Hin Hr Hnq. destruct (i_log_lt _ _ I _ _ Hin) as (_ & Hi & Hle).
+  - intros k p Hin Hr Hnq. destruct (i_log_lt _ _ _ I _ _ Hin) as (_ & Hi & Hle).
     unfold gone. destruct (Nat.eq_dec (kgen k) (cgen (cs s (kidx k)))) as [Eg|]; [|lia].
-    exfalso. destruct (i_log_live _ _ I _ _ Hin Eg) as [Hq|Hd]; [auto|].
+    exfalso. destruct (i_log_live _ _ _ I _ _ Hin Eg) as [Hq|Hd]; [auto|].
     assert (Hl : resolve s k = Ok (Some p)).
     { apply (resolve_live _ _ _ _ I). split; auto. split; auto. split.
-      - apply (i_occ _ _ I); auto. congruence.
-      - rewrite (i_gen _ _ I); auto. }
+      - apply (i_occ _ _ _ I); auto. congruence.
+      - rewrite (i_gen _ _ _ I); auto. }
     congruence.
   - intros k c' Hres p Hin.
-    unfold res_try_reserve, ctl_capacity in Hres. rewrite (i_clen _ _ I) in Hres.
+    unfold res_try_reserve, ctl_capacity in Hres. rewrite (i_clen _ _ _ I) in Hres.
     destruct (Nat.eqb_spec (cap cf) 0) as [Ez|Ez]; [discriminate|].
-    destruct (i_free _ _ I ltac:(lia)) as (fl & Hch & _ & Hfl). unfold ctl_try_reserve in Hres.
+    destruct (i_free _ _ _ I ltac:(lia)) as (fl & Hch & _ & Hfl). unfold ctl_try_reserve in Hres.
     destruct fl as [|h r]; cbn [chain] in Hch; [rewrite Hch in Hres; discriminate|].
     destruct Hch as (Eh & Hh & _). rewrite Eh, (nth_error_lt _ _ dC) in Hres by auto.
     inversion Hres; subst; clear Hres.
     assert (Hfree : cfree (cs s h) = true) by (apply Hfl; now left).
-    destruct (i_log_live _ _ I _ _ Hin eq_refl) as [Hq|Hd]; cbn [kidx] in *.
-    + assert (Ho : In h (owned s)).
+    destruct (i_log_live _ _ _ I _ _ Hin eq_refl) as [Hq|Hd]; cbn [kidx] in *.
+    + assert (Ho : In h (owned s [])).
       { unfold owned. rewrite !in_app_iff. right. left. unfold nq_idx. apply in_map_iff.
         eexists (_, p). split; [|exact Hq]. reflexivity. }
-      apply (i_nonfree _ _ I) in Ho as [_ Ho]. congruence.
-    + assert (Ho : In h (owned s)).
-      { unfold owned. rewrite !in_app_iff. left. apply (i_occ _ _ I); [rewrite <- (i_clen _ _ I); auto|congruence]. }
-      apply (i_nonfree _ _ I) in Ho as [_ Ho]. congruence.
+      apply (i_nonfree _ _ _ I) in Ho as [_ Ho]. congruence.
+    + assert (Ho : In h (owned s [])).
+      { unfold owned. rewrite !in_app_iff. left. apply (i_occ _ _ _ I); [rewrite <- (i_clen _ _ _ I); auto|congruence]. }
+      apply (i_nonfree _ _ _ I) in Ho as [_ Ho]. congruence.
 Qed.
 
 (** ** capacity: the statement over runs *)
@@ -419,7 +419,8 @@ Lemma capacity_exact_proof :
                     kidx k < cap cf /\ cfree (cs s (kidx k)) = true) /\
     (res_len s = cap cf -> res_try_reserve (st_ctl s) = Ok ArenaFull).
 Proof.
-  intros cf sched s H. apply capacity_exact_inv. now destruct (reach _ _ _ H).
+  intros cf sched s H. destruct (reach _ _ _ H) as [I _]. unfold Inv in I.
+  pose proof (capacity_exact_inv _ _ I) as C. cbn [length] in C. now rewrite Nat.add_0_r in C.
 Qed.
 
 (** ** non-vacuity: concrete reachable states that meet the hypotheses *)
